@@ -170,29 +170,39 @@ def drive(ctx, s, lib, criterion, perturbation, nsteps, loadings=None, tag="c43"
 
 
 def select(ctx):
-    cfgs = S.harvest()
-    if not ctx.thorough:
-        # 9 configurations: a greedy pairwise-covering sample seeded with one configuration of each family that adds a
-        # kind of equation of its own (orthotropic Hooke potential alone in plane stress, user defined flow with explicit
-        # strain hardening, strain-based nucleation)
-        cfgs = S.pairwise_sample(cfgs, 9, seed=0, forced=("Test5", "UserDefinedViscoplasticityTest3",
-                                                          "ChuNeedleman1980StrainBasedNucleationModelTest"))
+    """-> (specs, info): harvested files + synthesised configurations accepted by the generator"""
+    harvested = S.harvest()
+    synth, unknown = S.synthesize()
+    info = {"harvested": len(harvested), "synthesised": len(synth), "registered_criteria_without_parameter_set": unknown}
     only = os.environ.get("VF_C43_ONLY")  # debugging / replay aid: comma separated configuration names
     if only:
-        cfgs = [c for c in S.harvest() if c["name"] in only.split(",")]
-    specs = [S.spec(c, CRITERION, PERTURBATION) for c in cfgs]
-    return [s for s in specs if s is not None]
+        harvested = [c for c in harvested if c["name"] in only.split(",")]
+        synth = [c for c in synth if c["name"] in only.split(",")]
+    vfcore.ensure_tree("plain")
+    accepted, rejected, broken = S.screen(ctx, synth, CRITERION, PERTURBATION)
+    for name, log in sorted(broken.items()):
+        ctx.violation("%s:does-not-build-with-comparison" % name,
+                      "the generator accepts the configuration but not with @CompareToNumericalJacobian injected:\n%s" % log[-3000:],
+                      {"log": log[-8000:]})
+    reasons = {}
+    for n, m in rejected.items():
+        reasons[m] = reasons.get(m, 0) + 1
+    info.update({"synthesised_accepted": len(accepted), "synthesised_rejected_by_the_generator": len(rejected),
+                 "rejection_messages": reasons})
+    if not ctx.thorough and not only:
+        accepted, harvested = S.quick_sample(harvested, accepted, seed=0)
+    specs = [S.spec(c, CRITERION, PERTURBATION) for c in harvested]
+    return [s for s in specs if s is not None] + accepted, info
 
 
 def build(ctx):
-    specs = select(ctx)
-    vfcore.ensure_tree("plain")
+    specs, info = select(ctx)
     gen.check_layout()
     libs, skipped = {}, {}
 
     def one(s):
         lib, log, r = gen.build_cached(s["slot"], s["text"], s["fname"], ["generic"], s["name"], extra=tuple(s["extra"]))
-        if lib is None:
+        if lib is None and not s.get("synth"):
             # does the unmodified file generate and compile in isolation?
             lib0, log0, r0 = gen.build_cached(s["slot"] + "-orig", s["original"], s["fname"], ["generic"], s["name"], extra=tuple(s["extra"][1:]))
             return s, None, log, (lib0 is not None), log0
@@ -202,17 +212,21 @@ def build(ctx):
             libs[s["name"]] = str(lib)
         elif gbx.tool_could_not_start(log) or gbx.tool_could_not_start(log0):
             raise vfcore.HarnessFailure("mfront could not start (build tree being relinked?): %s" % (log + log0)[-800:])
+        elif s.get("synth"):
+            ctx.violation("%s:does-not-build" % s["name"], "synthesised configuration accepted by mfront does not generate/compile:\n%s" % log[-3000:],
+                          {"text": s["text"], "log": log[-8000:]})
         elif orig_ok:
             ctx.violation("%s:does-not-build-with-comparison" % s["name"],
                           "the file builds unmodified but not with @CompareToNumericalJacobian injected:\n%s" % log[-3000:],
                           {"text": s["text"], "log": log[-8000:]})
         else:
             skipped[s["name"]] = (log0 or log)[-300:]
-    return specs, libs, skipped
+    return specs, libs, skipped, info
 
 
 def run(ctx):
-    specs, libs, skipped = build(ctx)
+    specs, libs, skipped, info = build(ctx)
+    ctx.cov["configuration_space"] = info
     ctx.cov["rule"] = ("case = one Newton iterate of one step of one strain path of one hypothesis of one brick configuration, at which "
                        "every jacobian block is compared with centred finite differences; distinct = iterates compared outside status switches")
     ctx.cov["configurations"] = {s["name"]: s["features"] for s in specs if s["name"] in libs}
